@@ -17,7 +17,7 @@ def run(ctx):
     from mpmath import mp, mpf
     mp.dps = 30
     ss = S.generate(ctx, 14 if ctx.quick else 120, 4 if ctx.quick else 8, max_e=6 if ctx.quick else 7, max_loops=3 if ctx.quick else 4,
-                    routings_per_graph=1, kinds=("uniform", "corner", "corner", "uniform"))
+                    routings_per_graph=1, kinds=("uniform", "corner", "corner", "uniform"), scales=(1, 1, Fraction(1, 2 ** 33), 2 ** 30))
     ss += S.generate(ctx, 6 if ctx.quick else 40, 4, max_e=7, max_loops=3, routings_per_graph=1, kinds=("uniform", "corner"),
                      names=["sunrise", "banana4", "double_triangle", "kite", "bubble_chain", "triangle_tadpole", "sunrise_tadpole", "bubble_chain3"],
                      mass_mode="some")
@@ -30,6 +30,9 @@ def run(ctx):
     # mass-momentum spanning); small graphs, many sectors
     ss += S.generate(ctx, 6 if ctx.quick else 30, 10 if ctx.quick else 30, max_e=5, max_loops=3, routings_per_graph=1, kinds=("uniform",),
                      names=["bubble", "triangle", "sunrise", "box", "bubble_leg", "kite"], ext_modes=["edge"])
+    # graphs with self-loops: a tadpole removed LAST still lowers the loop number
+    ss += S.generate(ctx, 5 if ctx.quick else 25, 10 if ctx.quick else 30, max_e=5, max_loops=3, routings_per_graph=1, kinds=("uniform",),
+                     names=["tadpole", "tadpole_pair", "triangle_tadpole", "sunrise_tadpole"])
     rng = ctx.rng
     # rare sectors: push edge-choice coordinates to the ends of [0,1)
     for s in list(ss[:: 3]):
